@@ -13,7 +13,7 @@ ALL_KINDS = [
 ]
 
 # kinds a property has to opt in to (swarm_cfg(on=...)): every model that walks specs must know them
-OPT_IN_KINDS = ["dsclass"]
+OPT_IN_KINDS = ["dsclass", "namespace"]
 
 ALL_FEATURES = [
     "tmpl",  # templated scalar values in dictionaries
@@ -311,7 +311,7 @@ class SpecGen:
         if k in ("switch", "case"):
             if n.get("default") is None:
                 return True
-        if k in ("bind", "case", "map", "dataset", "derive", "apply", "cached", "withopts", "alloptions"):
+        if k in ("bind", "case", "map", "dataset", "derive", "apply", "cached", "withopts", "alloptions", "namespace", "dsclass"):
             # user callables / dispatch / shape-dependent: conservative
             return True
         kids = []
@@ -349,6 +349,23 @@ class SpecGen:
             where = r.choices(["fields", "plain", "mixin"], [5, 2, 2])[0]
             node[where].append([nm, self.pick_any()])
         return self.add(node)
+
+    def g_namespace(self):
+        """An @Option.namespace class (one per program): declared members of every kind; evaluates to the populated section."""
+        r = self.rng
+        if any(n["k"] == "namespace" for n in self.nodes):
+            return self.g_dataset()
+        members = [{"t": "const", "name": "P", "v": r.choice([1, "p", None])}]
+        if r.random() < 0.5:
+            members.append({"t": "annot", "name": "REQ"})
+        if r.random() < 0.6:
+            members.append({"t": "sub", "name": "SUB", "v": r.choice([0, "x"])})
+        if r.random() < 0.6:
+            members.append({"t": "auto", "name": "AU", "v": r.choice([2, "au"])})
+        ds = [n["id"] for n in self.nodes if n["k"] == "dataset" and not n.get("abstract")]
+        if ds and r.random() < 0.5:
+            members.append({"t": "expr", "name": "DD", "n": r.choice(ds)})
+        return self.add({"k": "namespace", "name": "NSP", "members": members})
 
     def g_dict(self):
         r = self.rng
@@ -440,7 +457,7 @@ class SpecGen:
         seen.add(nid)
         n = next(x for x in self.nodes if x["id"] == nid)
         k = n["k"]
-        if k in ("alloptions", "dict", "dsclass"):
+        if k in ("alloptions", "dict", "dsclass", "namespace"):
             # (a datasetclass instance prints as Name({...}): braces again)
             return False
         if k == "val":
@@ -688,7 +705,7 @@ def children(n):
     elif k == "derive":
         out.append(n["base"])
     elif k == "namespace":
-        pass
+        out.extend(m["n"] for m in n["members"] if m["t"] == "expr")
     return out
 
 
@@ -739,6 +756,8 @@ def program_key_paths(spec):
                 out.update(r for r in U.template_refs(d["s"]) if not r.startswith(":"))
         elif k == "template":
             out.update(r for r in U.template_refs(n["text"]) if not r.startswith(":"))
+        elif k == "namespace":
+            out.update(namespace_keys(n))
         elif k == "switch" and isinstance(n["dispatch"], str):
             out.add(n["dispatch"])
         elif k == "dataset":
@@ -864,6 +883,11 @@ def hashable_required_keys(spec):
     return out
 
 
+def namespace_keys(n):
+    """Dotted keys a namespace node reads."""
+    return [f"{n['name']}.{m['name']}" + (".X" if m["t"] == "sub" else "") for m in n["members"]]
+
+
 def spec_ok(spec):
     """Generator invariants that the shrinker must preserve (each one answers a soundness hazard)."""
     import random
@@ -928,6 +952,8 @@ def live_reads(spec, root):
             out.append(n["dispatch"])
         elif k == "alloptions":
             out.append("*")
+        elif k == "namespace":
+            out.extend(namespace_keys(n))
         return out
 
     def visit(nid, forced):
